@@ -5,8 +5,8 @@ from nodegen import *
 ID = "C10"
 DRIVER = "node"
 MODEL_FILES = ["Model/Base.v", "Model/Parse.v", "Model/Node.v"]
-THEOREMS = []
-STRENGTH = {}
+THEOREMS = ["C10_parse_total", "C10_init_inv", "C10_step_inv", "C10_step_no_panic", "C10_run_no_panic", "C10_probe_served", "C10_http_worker_survives", "C10_admin_inv_needed"]
+STRENGTH = {t: "proof-unbounded" for t in THEOREMS}
 RULE = ("every command word known to the parser (plus unknown ones) x argument lists of 0-5 tokens drawn from {empty, spaces, "
         "non-numeric, i32/u64/u128 boundary numbers, $$ keys, ';' and newline, a 10 kB token, non-ASCII} plus seeded random byte "
         "strings, sent from an unauthenticated, a database-token and an administrator session (debug build: overflow checks on); "
